@@ -76,7 +76,13 @@ def one(t):
         r = run(base, work, plan, disk, extra, logf)
         log = lib.read_shim_log(logf)
         injected = [e for e in log if e.get("inj") == 1]
+        # an open that only serves the extent query (plain O_RDONLY; the hasher opens with O_NOATIME first) is not a read: if no
+        # hashing open of that path was attempted in this run, the entry was never found unreadable
+        O_NOATIME = 0o1000000
+        hashing_open = {e["p1"] for e in injected if e["call"] == "openr" and (e.get("a", 0) & O_NOATIME)}
+        injected = [e for e in injected if e["call"] != "openr" or e["p1"] in hashing_open]
         res = {"faults": faults, "disk": disk, "extra": extra, "rc": r.rc, "stderr": r.err.decode("utf-8", "replace")[-700:], "injected": len(injected),
+               "injected_errnos": sorted({e["errno"] for e in injected}),
                "timeout": r.timed_out, "panicked": r.panicked}
         if not injected:
             res["skip"] = "fault position not reached"
@@ -101,9 +107,9 @@ def one(t):
             elif os.path.lexists(p):
                 os.remove(p)
         ref = run(base, work, None, disk, extra)
-        # same groups (sizes and paths, in the same order); the printed hash of a group may legitimately differ:
-        # a file left alone in its size class is passed through unhashed
-        shape = lambda out: [(g["len"], g["paths"]) for g in gg.parse_text_report(out)[1]]
+        # same groups (sizes and paths); the printed hash of a group may legitimately differ - a file left alone in its size class is
+        # passed through unhashed - and with it the order among groups of one size
+        shape = lambda out: sorted((g["len"], tuple(g["paths"])) for g in gg.parse_text_report(out)[1])
         res["body_equal"] = shape(r.out) == shape(ref.out)
         if not res["body_equal"]:
             res["diff"] = c13.diff(c13.body(ref.out), c13.body(r.out))
@@ -236,7 +242,7 @@ def main(tier):
             continue
         if not r["body_equal"]:
             chk.violation(f"C15/others-affected class={cls} {sig}", f"the report differs from the report of the tree without {r['removed']}: {r.get('diff')}", r)
-        if not r["warned"] and any(e != "ENOENT" for _, _, _, e in r["faults"]):
+        if not r["warned"] and any(e != 2 for e in r.get("injected_errnos", [5])):        # only faults that really fired count
             chk.violation(f"C15/no-warning class={cls} {sig}", "an entry could not be read (not ENOENT) but no warning was logged", r)
     chk.cov["evaluations"] = len(done)
     chk.cov["traces_validated_against_impl"] = len(done)
